@@ -697,6 +697,8 @@ class Patron(object):
         self.events = events if events is not None else deque()
         self.waited = False  # Boolean True If sent request but waiting for response
         self.latest = None  # latest request odict from .requests in process if any
+        if store is None and connector is not None:
+            store = connector.store  # same clock as the provided connector and its timers
         self.store = store or storing.Store(stamp=0.0)
 
         # see if path also includes scheme, netloc, host, port, query, fragment
